@@ -658,8 +658,8 @@ def int_cmp(E, c, a, b):
     if m in ('max', 'min'):
         sym = is_sym(x) or is_sym(y)
         # Ord::max returns the second argument when equal
-        ge = E.ctx.branch(y >= x) if sym else y >= x
         if m == 'max':
+            ge = E.ctx.branch(y >= x) if sym else y >= x
             return 'b' if ge else 'a'
         le = E.ctx.branch(x <= y) if sym else x <= y
         return 'a' if le else 'b'
@@ -1258,6 +1258,9 @@ def as_iter(E, v):
             if n == 'Some':
                 return ListIter([RefV(v.cell, v.path + (('downcast', 'Some'), ('field', 0, None)), v.mut)])
             return ListIter([])
+        fr = AS_ITER_REF.get(type(tgt.obj) if isinstance(tgt, ObjV) else type(tgt))
+        if fr is not None:
+            return fr(E, tgt.obj if isinstance(tgt, ObjV) else tgt, v.mut)
         return as_iter(E, tgt)
     if isinstance(v, VecV):
         return ListIter(v.items)
@@ -1281,6 +1284,7 @@ def as_iter(E, v):
 
 
 AS_ITER = {}
+AS_ITER_REF = {}     # iteration through a reference: f(E, obj, mutable) -> Iter yielding references
 
 
 def iter_obj(it):
@@ -1869,6 +1873,19 @@ def _(E, c):
     if m == 'fill':
         E.store(r, VecV([c.args[1]] * len(t.items), t.ty))
         return UNIT
+    if m in ('windows', 'chunks'):
+        n = E.deref(c.args[1])
+        n = n.v if isinstance(n, IntV) else n
+        if is_sym(n):
+            raise Inconclusive('symbolic window size')
+        if n == 0:
+            raise PathEnd('panic', 'window size must be non-zero')
+        its = list(t.items)
+        if m == 'windows':
+            parts = [its[i:i + n] for i in range(0, len(its) - n + 1)]
+        else:
+            parts = [its[i:i + n] for i in range(0, len(its), n)]
+        return ObjV(ListIter([RefV(Cell(VecV(p_, t.ty), 'window'), ()) for p_ in parts]))
     return NotImplemented
 
 
